@@ -86,3 +86,43 @@ Fixpoint c08_run (s : aspec) (tr : list entry) : N :=
 
 Definition C08_mismatch : c07_case -> bool := C07_mismatch.
 Definition C08_monitor (c : c07_case) : N := c08_run as_init (c_steps c).
+
+(* ---- the concrete negative membership filter (idempotency_filter.go) ------------------------------ *)
+(* Two Bloom layers over process-random maphash values.  The two hash functions
+   are parameters: nothing the store relies on depends on them (C08 theorems
+   hold for arbitrary h1, h2).  A layer is the set of its set bits; None = not
+   allocated (nil slice). *)
+Section Bloom.
+  Variables h1 h2 : bytes * bytes -> N.
+
+  Definition probe_bits (words : N) (k : bytes * bytes) : list N :=
+    map (fun i => N.land ((h1 k + N.of_nat i * N.lor (h2 k) 1) mod two64) (words * 64 - 1))
+        (seq 0 (N.to_nat idempotencyMembershipHashCount)).
+
+  Record bloom := BF { b_prim : option (list N); b_over : option (list N); b_adds : N }.
+
+  Definition bloom_empty : bloom := BF None None 0.
+
+  (* idempotencyMembershipLayerMayContain *)
+  Definition layer_may (l : option (list N)) (words : N) (k : bytes * bytes) : bool :=
+    match l with
+    | None => false
+    | Some bits => forallb (fun b => mem_N b bits) (probe_bits words k)
+    end.
+
+  (* idempotencyMembershipLayerAdd (allocating on first use) *)
+  Definition layer_add (l : option (list N)) (words : N) (k : bytes * bytes) : option (list N) :=
+    Some (probe_bits words k ++ match l with Some bits => bits | None => [] end).
+
+  (* mayContain *)
+  Definition bloom_may (f : bloom) (k : bytes * bytes) : bool :=
+    layer_may (b_prim f) idempotencyMembershipPrimaryWords k
+    || layer_may (b_over f) idempotencyMembershipOverflowWords k.
+
+  (* add *)
+  Definition bloom_add (f : bloom) (k : bytes * bytes) : bloom :=
+    if bloom_may f k then f
+    else if b_adds f <? idempotencyMembershipPrimaryCapacity
+         then BF (layer_add (b_prim f) idempotencyMembershipPrimaryWords k) (b_over f) (b_adds f + 1)
+         else BF (b_prim f) (layer_add (b_over f) idempotencyMembershipOverflowWords k) (b_adds f).
+End Bloom.
